@@ -71,8 +71,11 @@ def run(ctx):
         ctx.violation(key, "after fault %s(%s) the proxy routes to %s, expected %s %s" % (st["a"], st.get("h"), m["got"], m["want"], m.get("note", "")), replay=m)
     ad = r.get("all_down") or {}
     if ad:
-        if not (ad.get("down_1", 0) > 0 and ad.get("down_2", 0) > ad.get("down_1", 0)):
-            ctx.violation("C16:outage-not-reported-while-all-nodes-down", "outage duration does not grow while every node is down: %s" % ad, replay=ad)
+        # sampled 400 ms and 700 ms after every node went away: the outage is the time since the control connection was lost
+        # (readiness compares it with its timeout), so it must have reached those ages, less the time the loss takes to be noticed
+        if not (ad.get("down_1", 0) >= 250e6 and ad.get("down_2", 0) >= ad.get("down_1", 0) + 200e6):
+            ctx.violation("C16:outage-not-reported-while-all-nodes-down", "outage duration does not grow with the time since the control connection was lost "
+                          "while every node is down (sampled 400 ms and 700 ms after the loss): %s" % ad, replay=ad)
         if not ad.get("healed") or ad.get("after", 1) != 0:
             ctx.violation("C16:outage-not-cleared-after-recovery", "outage not cleared / control connection not re-established after the nodes returned: %s" % ad, replay=ad)
         if ad.get("before", 1) != 0:
